@@ -113,6 +113,9 @@ pub fn run_contained(timeout_s: u32, body: impl FnOnce() -> Value) -> ChildEnd {
     }
     match serde_json::from_slice::<Value>(&buf) {
         Ok(v) => ChildEnd::Report(v),
+        // the child ran to its end and wrote something that is not a report: its memory was damaged
+        // while the scenario ran (handled like a report with damaged fields)
+        Err(_) if buf.len() > 2 => ChildEnd::Report(Value::String("damaged".into())),
         Err(_) => ChildEnd::NoReport,
     }
 }
